@@ -119,6 +119,17 @@ class OptT(Ty):
         return self.name
 
 
+class ResT(Ty):
+    """result type  E ! T  (error type first, as Ferret writes it)"""
+
+    def __init__(self, err, ok):
+        self.err, self.ok = err, ok
+        self.name = '%s ! %s' % (err.name, ok.name)
+
+    def __repr__(self):
+        return self.name
+
+
 class EnumT(Ty):
     def __init__(self, name, variants):
         self.name = name
@@ -320,6 +331,19 @@ class Coalesce(Expr):
         return '(%s ?? %s)' % (self.opt.src(), self.dflt.src())
 
 
+class Catch(Expr):
+    """call catch e { handler } fallback   |   call catch fallback   (handler may end in a return)"""
+
+    def __init__(self, call, fallback, errname=None, handler=None):
+        self.call, self.fallback, self.errname, self.handler = call, fallback, errname, handler
+        self.ty = call.ty.ok
+
+    def src(self):
+        if self.handler is None:
+            return '(%s catch %s)' % (self.call.src(), self.fallback.src())
+        return '(%s catch %s {\n%s    } %s)' % (self.call.src(), self.errname, block_src(self.handler, '        '), self.fallback.src())
+
+
 class EnumVal(Expr):
     def __init__(self, ty, variant):
         self.ty, self.variant = ty, variant
@@ -408,6 +432,16 @@ class Return:
 
     def src(self, ind):
         return '%sreturn%s;' % (ind, ' ' + self.e.src() if self.e is not None else '')
+
+
+class ReturnErr:
+    """return e!;   (the error side of a result-returning function)"""
+
+    def __init__(self, e):
+        self.e = e
+
+    def src(self, ind):
+        return '%sreturn %s!;' % (ind, self.e.src())
 
 
 class Match:
@@ -522,6 +556,11 @@ class OptVal:
         self.has, self.val = has, val
 
 
+class ResVal:
+    def __init__(self, is_err, ok, err):
+        self.is_err, self.ok, self.err = is_err, ok, err
+
+
 class RefVal:
     def __init__(self, env, name, path):
         self.env, self.name, self.path = env, name, path
@@ -558,6 +597,8 @@ def ite_val(c, a, b):
         return [ite_val(c, x, y) for x, y in zip(a, b)]
     if isinstance(a, OptVal):
         return OptVal(z3.If(c, a.has, b.has), ite_val(c, a.val, b.val))
+    if isinstance(a, ResVal):
+        return ResVal(z3.If(c, a.is_err, b.is_err), ite_val(c, a.ok, b.ok), ite_val(c, a.err, b.err))
     if isinstance(a, StrVal):
         m = max(len(a.bs), len(b.bs))
         pa = a.bs + [z3.BitVecVal(0, 8)] * (m - len(a.bs))
@@ -579,6 +620,8 @@ def default_val(ty):
         return [default_val(ty.elem) for _ in range(ty.n)]
     if isinstance(ty, OptT):
         return OptVal(z3.BoolVal(False), default_val(ty.elem))
+    if isinstance(ty, ResT):
+        return ResVal(z3.BoolVal(False), default_val(ty.ok), default_val(ty.err))
     if isinstance(ty, EnumT):
         return z3.BitVecVal(0, 32)
     raise Unsupported('default of %s' % ty)
@@ -709,9 +752,20 @@ class RefEval:
                 v = self.eval(s.e, env, ctx, lv)
                 if not isinstance(ctx['fn'].ret, RefT):
                     v = self.deref(v, lv)
-                v = self.coerce(v, s.e.ty, ctx['fn'].ret)
+                rt = ctx['fn'].ret
+                if isinstance(rt, ResT):
+                    v = ResVal(z3.BoolVal(False), self.coerce(v, s.e.ty, rt.ok), default_val(rt.err))
+                else:
+                    v = self.coerce(v, s.e.ty, rt)
                 lv = self.live(ctx, g)
                 ctx['ret'] = ite_val(lv, self.copy(v), ctx['ret'])
+            ctx['returned'] = z3.Or(ctx['returned'], lv)
+        elif isinstance(s, ReturnErr):
+            rt = ctx['fn'].ret
+            v = self.deref(self.eval(s.e, env, ctx, lv), lv)
+            v = ResVal(z3.BoolVal(True), default_val(rt.ok), self.coerce(v, s.e.ty, rt.err))
+            lv = self.live(ctx, g)
+            ctx['ret'] = ite_val(lv, v, ctx['ret'])
             ctx['returned'] = z3.Or(ctx['returned'], lv)
         elif isinstance(s, Match):
             subj = self.eval(s.subj, env, ctx, lv)
@@ -983,6 +1037,16 @@ class RefEval:
                 if it[0] == 'i' and not z3.is_bv_value(z3.simplify(it[1])):
                     raise Unsupported('reference to an element at a symbolic index')
             return RefVal(en, n, p)
+        if isinstance(e, Catch):
+            r = self.eval(e.call, env, ctx, lv)
+            if e.handler is not None:
+                inner = ScopeEnv(env)
+                inner.declare(e.errname, r.err)
+                # the handler runs only on the error side; a return inside it leaves the enclosing function
+                self.block(e.handler, inner, ctx, z3.And(ctx['guard'] if False else lv, r.is_err))
+            fb = self.eval(e.fallback, env, ctx, z3.And(lv, r.is_err))
+            fb = self.coerce(fb, e.fallback.ty, e.ty)
+            return ite_val(r.is_err, fb, r.ok)
         if isinstance(e, Call):
             try:
                 f = env.lookup('fn:' + e.fname)
